@@ -624,6 +624,15 @@ def _process_class( cls, add_init=True, add_str=True, add_repr=True,
 
   # Get annotations of the class
   cls_annotations = cls.__dict__.get('__annotations__', {})
+
+  # The fields of the bitstructs this class derives from come first, as
+  # in a dataclass
+  inherited = {}
+  for base in reversed( cls.__mro__[1:] ):
+    inherited.update( base.__dict__.get( _FIELDS, {} ) )
+  if inherited:
+    cls_annotations = { **inherited, **cls_annotations }
+
   if not cls_annotations:
     raise AttributeError( "No field is declared in the bit struct definition.\n"
                          f"Suggestion: check the definition of {cls.__name__} to"
